@@ -1,4 +1,4 @@
-"""C53 — HyperRAM transactions use the correct command and never contend the bus (HyperRAMInterface).
+"""C53 — HyperRAM transactions use the correct command and never contend the bus (HyperRAMInterface, HyperRAMDQSInterface).
 
 Statement: "Each transaction drives the 48-bit command-address word (read/write, memory/register space, burst type,
 address) on DQ during the command phase, keeps chip select asserted until the transaction ends, waits the latency count
@@ -47,10 +47,23 @@ EXPLANATION = ("Real HyperRAMInterface with an open HyperBusPHY record. Ghost = 
                "CS asserted exactly from the cycle after the request through the last data word, first write data exactly "
                "L clocks after the last command word / no read data accepted earlier than L-1, DQ enabled iff command or "
                "write phase, RWDS enabled iff memory-write data phase, nothing driven in read transactions after the "
-               "command. Unbounded 1-induction.")
+               "command. Unbounded 1-induction. "
+               "Second unit: real HyperRAMDQSInterface (32-bit DQS-group variant) with an open HyperBusDQSPHY record "
+               "(HyperRAMDQSPHY and its ECP5 primitives are not elaborated; dq.i / rwds.i / datavalid are free inputs). Same "
+               "ghost machine with a two-clock command phase (CA[47:16], then CA[15:0] + 16 zero bits) and the read phase "
+               "driven by the PHY's datavalid; ensures: command words and their fields on dq.o with dq.e, CS from the clock "
+               "after the request through the recovery clock, L+1 latency clocks for every transaction except a register "
+               "write (which has none) irrespective of the sampled RWDS, dq.e iff command or write-data phase, rwds.e iff "
+               "memory-write data phase, phy.read iff read phase, read_ready iff datavalid in the read phase, read_data = dq.i.")
 ASSUMPTIONS = ["the 'sync' domain reset is not asserted",
                "latency count = class constant HIGH_LATENCY_CLOCKS (14), counted from the last command word; not "
-               "cross-checked against the memory data sheet"]
+               "cross-checked against the memory data sheet",
+               "HyperRAMDQSInterface: latency count = class constant HIGH_LATENCY_CLOCKS (5 sync clocks of two bus clocks "
+               "each; the unit waits L+1 clocks after the last command word); the unit samples RWDS but always applies the "
+               "doubled count ('extra_latency | 1', fixed-latency part) - the contract pins that, it does not require the "
+               "undoubled count when RWDS was sampled low",
+               "HyperRAMDQSInterface: the PHY (HyperRAMDQSPHY, vendor primitives) is opened; its dq.i / rwds.i / datavalid "
+               "outputs are unconstrained inputs of the unit"]
 
 IDLE, SELECT, CA0, CA1, CA2, LAT, RD, WR, REC = range(9)
 STATE = {IDLE: "IDLE", SELECT: "LATCH_RWDS", CA0: "SHIFT_COMMAND0", CA1: "SHIFT_COMMAND1", CA2: "SHIFT_COMMAND2",
